@@ -19,7 +19,7 @@ MANIFEST = dict(
     text="Machine-checked theorems (Coq 8.16, no axioms) about a Gallina transcription of src/streams.rs and WrappedVec: one-step lemmas "
          "len s = 1 + len (next s) / len s = 0 and, from them, len = number of elements iteration yields for every state of Range (any start/end/step in Z, "
          "any sign), stream(seq), Subsequences (binary counter), CartesianPower (mixed radix), Combinations (every n and k; default len) and, by exhaustive "
-         "computation lifted with forallb_forall, Permutations of at most 6 things; each constructor enumerates exactly its documented set without repetition in the documented order; "
+         "computation lifted with forallb_forall, Permutations of at most 6 things (for every base length: termination, only permutations, strictly increasing order); each constructor enumerates exactly its documented set without repetition in the documented order; "
          "lazy map/filter/zip list map/filter/zip of the inner lists; reverse/last/in/truthiness/unpacking are the list functions of list(s); consumers that hold a "
          "second reference never advance the variable's stream; iota/repeat/cycle/iterate prefixes follow their recurrences and len is infinite; n-ary lazy_zip (with or without a function), "
          "Repeat's slice override and lazy_map/lazy_filter with raising callbacks (the error is the last item; list(s) is mapM f) are characterised too. The model is tied to "
